@@ -139,6 +139,10 @@ pub trait Property: 'static {
     fn enumerated_exhaustive() -> bool {
         false
     }
+    /// true when the library under test prints to stdout (silenced while cases execute)
+    fn quiet_stdout() -> bool {
+        false
+    }
 }
 
 // ---------------------------------------------------------------------------------------------
@@ -593,6 +597,7 @@ fn save_failure(id: &str, case: &serde_json::Value) -> PathBuf {
 pub fn run<P: Property>(opts: &Opts) -> i32 {
     install_quiet_panic_hook();
     let t0 = Instant::now();
+    let silence = if P::quiet_stdout() { Some(StdoutSilencer::new()) } else { None };
     let known = load_known(P::ID);
     let mut total = Stats::default();
     let mut violations: Vec<(Failure, PathBuf)> = vec![];
@@ -678,6 +683,8 @@ pub fn run<P: Property>(opts: &Opts) -> i32 {
     for r in results {
         total.merge(r);
     }
+
+    drop(silence);
 
     // failures -> replay files (deduplicated by signature)
     let mut seen = HashSet::new();
@@ -818,4 +825,39 @@ pub fn idx(i: u16, len: usize) -> usize {
 
 pub fn boxed<S: Strategy + 'static>(s: S) -> BoxedStrategy<S::Value> {
     s.boxed()
+}
+
+
+/// Redirects file descriptor 1 to /dev/null until dropped (the library prints diagnostics with println!).
+pub struct StdoutSilencer {
+    saved: i32,
+}
+
+impl StdoutSilencer {
+    pub fn new() -> Self {
+        use std::io::Write;
+        let _ = std::io::stdout().flush();
+        unsafe {
+            let saved = libc::dup(1);
+            let null = libc::open(b"/dev/null\0".as_ptr() as *const libc::c_char, libc::O_WRONLY);
+            if null >= 0 {
+                libc::dup2(null, 1);
+                libc::close(null);
+            }
+            StdoutSilencer { saved }
+        }
+    }
+}
+
+impl Drop for StdoutSilencer {
+    fn drop(&mut self) {
+        use std::io::Write;
+        let _ = std::io::stdout().flush();
+        unsafe {
+            if self.saved >= 0 {
+                libc::dup2(self.saved, 1);
+                libc::close(self.saved);
+            }
+        }
+    }
 }
